@@ -12,6 +12,7 @@ Ops
   fields flatten <root> <graph>                 → `OK <k> {<id>:<i.j.k>:<nameHex>:<optBits>} FB=<i.j|-> FMT=<0|1>` | `E <class>`
   fields lookups <root> <flagBits> <k> <k nameHex> <graph>  → k answers `F<id>` | `A` | `U`   (flagBits: 1 MatchCaseInsensitiveNames,
                                                    2 MatchCaseSensitiveDelimiter, 4 ReportErrorsWithLegacySemantics)
+  fields full <root> <k> <k nameHex> <graph>    → `<flatten answer> ;<lookups fl=0> ;<fl=1> ;<2> ;<3> ;<4> ;<5> ;<7>`
   fields fold <hex>                             → hex of foldName
   fields match <fieldNameHex> <casing> <nameHex> <flagBits> → 0|1
   fields omit <optBits> <flagBits> <valBits>    → 0|1   (flagBits: 1 OmitZeroStructFields, 2 OmitEmptyWithLegacySemantics;
@@ -157,6 +158,28 @@ def handle (op : String) (args : List String) : String :=
         " ".intercalate (names.map (fun n => showLookup (lookup foldRuneTbl r.flattened n (matchFlags fl))))
       | _, _ => badArgs
     | _, _, _ => badArgs
+  | "full", root :: k :: rest =>
+    -- flatten + lookups under the flag sets 0 1 2 3 4 5 7, in one pass: `<flatten> ;<answers fl=0> ;<answers fl=1> …`
+    match root.toNat?, k.toNat? with
+    | some root, some k =>
+      match (rest.take k).mapM bytesOfHex, parseGraph (rest.drop k) with
+      | some names, some g =>
+        if root ≥ g.length ∨ names.length ≠ k then badArgs else
+        if searchExhausted g root then "ERR fuel" else
+        let r := flatten g root
+        let head := match r.err with
+          | some e => s!"E {showErr e}"
+          | none =>
+            let fs := " ".intercalate (r.flattened.map showField)
+            let fb := match r.fallback with
+              | some f => showIndex f.index
+              | none => "-"
+            s!"OK {r.flattened.length} {fs} FB={fb} FMT={boolStr r.errFormat}"
+        let looks := [0, 1, 2, 3, 4, 5, 7].map (fun fl =>
+          " ".intercalate (names.map (fun n => showLookup (lookup foldRuneTbl r.flattened n (matchFlags fl)))))
+        " ;".intercalate (head :: looks)
+      | _, _ => badArgs
+    | _, _ => badArgs
   | "fold", [h] =>
     match bytesOfHex h with
     | some b => hexOfBytes (Fold.foldName foldRuneTbl b)
